@@ -206,12 +206,12 @@ package ratelimit
 // ---- bridge lemmas (checked by the solvers; they connect the per-call contracts to the interval statement) ----
 // Psi = G*theta + avail*theta - lastRefresh never increases along contract steps (G = amount admitted so far).
 
-//@ lemma c03_admit_step: forall G int, n int, a int, lr int, a2 int, lr2 int, theta int :: theta >= 1 && n >= 0 && a2 * theta - lr2 <= a * theta - lr ==> (G + n) * theta + (a2 - n) * theta - lr2 <= G * theta + a * theta - lr
-//@ lemma c03_interval_bound: forall G int, a1 int, lr1 int, a2 int, lr2 int, t1 int, t2 int, theta int, burst int :: theta >= 1 && 0 <= a1 && a1 <= burst && 0 <= a2 && lr2 <= t2 && lr1 <= t1 && t1 - lr1 < theta && t1 <= t2 && G * theta + a2 * theta - lr2 <= a1 * theta - lr1 ==> G * theta < burst * theta + (t2 - t1) + theta
-//@ lemma c03_fresh_after_idle: forall a int, lr int, now int, theta int, burst int :: theta >= 1 && 0 <= a && now - lr >= burst * theta ==> burst * theta - now <= a * theta - lr
-//@ lemma c03_ttl_covers_refill: forall period int, average int, burst int :: period >= 1000000000 && average >= 1 && 1 <= burst && burst <= 5 * average ==> burst * (period / average) <= ((period / 1000000000) * 10) * 1000000000
-//@ lemma c13_delay_sufficient: forall a int, n int, burst int, theta int, lr int, t int, t2 int, k int :: theta >= 1 && 0 <= a && a < n && n <= burst && lr <= t && t2 >= t + (n - a) * theta && k * theta <= t2 - lr && t2 - lr < (k + 1) * theta ==> min(burst, a + k) >= n
-//@ lemma c13_idle_refill: forall a int, burst int, theta int, lr int, t2 int, k int :: theta >= 1 && 0 <= a && a <= burst && t2 - lr >= burst * theta && k * theta <= t2 - lr && t2 - lr < (k + 1) * theta ==> min(burst, a + k) == burst
+//@ theorem {C03} c03_admit_step: forall G int, n int, a int, lr int, a2 int, lr2 int, theta int :: theta >= 1 && n >= 0 && a2 * theta - lr2 <= a * theta - lr ==> (G + n) * theta + (a2 - n) * theta - lr2 <= G * theta + a * theta - lr
+//@ theorem {C03} c03_interval_bound: forall G int, a1 int, lr1 int, a2 int, lr2 int, t1 int, t2 int, theta int, burst int :: theta >= 1 && 0 <= a1 && a1 <= burst && 0 <= a2 && lr2 <= t2 && lr1 <= t1 && t1 - lr1 < theta && t1 <= t2 && G * theta + a2 * theta - lr2 <= a1 * theta - lr1 ==> G * theta < burst * theta + (t2 - t1) + theta
+//@ theorem {C03} c03_fresh_after_idle: forall a int, lr int, now int, theta int, burst int :: theta >= 1 && 0 <= a && now - lr >= burst * theta ==> burst * theta - now <= a * theta - lr
+//@ theorem {C03} c03_ttl_covers_refill: forall period int, average int, burst int :: period >= 1000000000 && average >= 1 && 1 <= burst && burst <= 5 * average ==> burst * (period / average) <= ((period / 1000000000) * 10) * 1000000000
+//@ theorem {C13} c13_delay_sufficient: forall a int, n int, burst int, theta int, lr int, t int, t2 int, k int :: theta >= 1 && 0 <= a && a < n && n <= burst && lr <= t && t2 >= t + (n - a) * theta && k * theta <= t2 - lr && t2 - lr < (k + 1) * theta ==> min(burst, a + k) >= n
+//@ theorem {C13} c13_idle_refill: forall a int, burst int, theta int, lr int, t2 int, k int :: theta >= 1 && 0 <= a && a <= burst && t2 - lr >= burst * theta && k * theta <= t2 - lr && t2 - lr < (k + 1) * theta ==> min(burst, a + k) == burst
 
 // ---- request path ---------------------------------------------------------------------------
 
